@@ -1048,13 +1048,17 @@ class C05(Prop):
       'modelled, not verified: to_json / from_json / Object.__init__ binding for field kinds '
       'Any Bool Int Str List Dict Object, `n_:` key coding incl. int() on ASCII, MemoryFileSystem '
       '(_internal_path, _locate, mkdirs, open w/a, read), LineSequence; tied by correspondence',
+      'stand-alone typed containers: modelled for const-key Dict / List with the field kinds above '
+      '(sym_jsonify schema branch, schema-backed writes), tied by 4 fixed correspondence cases',
       'outside the model (oracle only): typed containers with rich specs, Tuple/Enum/Float/Union fields, '
-      'value specs, schemas, geno specs, DNA, functions / classes by name, MemorySequence (.mem), '
-      'opaque-object fallback (pickle in base64)',
+      'value specs (argument-record level only: T-SIG table + C05_sig_roundtrip), schemas, geno specs, DNA, '
+      'functions / classes by name, MemorySequence (.mem), opaque-object fallback (pickle in base64)',
   ]
   assumptions = ['a Python dict has distinct keys (Conforms: keysNodup)',
                  'objects satisfy their class schema when built by the library (C03), i.e. `Conforms`',
-                 'store histories use paths whose component lists are prefix-free (a file is never inside a file)']
+                 'store theorems: paths are well located (PathOK; proved for canonical "/mem/d1/../name" strings) '
+                 'and their locations prefix-free (a file is never inside a file); raw writefile / mkdirs / '
+                 'exists / listdir and the error paths are correspondence only']
 
   _impl = None
 
